@@ -132,7 +132,14 @@ class RationalQuadraticSpline(AbstractBijection):
         a = (yk1 - yk) * (sk - derivatives[k]) + y_delta_s_term
         b = (yk1 - yk) * derivatives[k] - y_delta_s_term
         c = -sk * (y_robust - yk)
-        sqrt_term = jnp.sqrt(b**2 - 4 * a * c)
+        # b**2 - 4*a*c, rearranged into a sum of two non-negative terms: the literal form
+        # cancels (and can round below zero) towards the top of a bin, where it equals
+        # ((yk1 - yk) * derivatives[k + 1]) ** 2, which may be tiny next to b**2.
+        t = (y_robust - yk) / (yk1 - yk)
+        sqrt_term = (yk1 - yk) * jnp.sqrt(
+            ((1 - t) * derivatives[k] - t * derivatives[k + 1]) ** 2
+            + 4 * sk**2 * t * (1 - t)
+        )
         xi = (2 * c) / (-b - sqrt_term)
         x = xi * (xk1 - xk) + xk
 
